@@ -483,6 +483,9 @@ impl<'a> LineBreaker<'a> {
         emergency_stretch: common::Scaled,
         force_solution: bool,
     ) -> Option<Vec<usize>> {
+        // TeX.2021.863: if threshold>inf_bad then threshold:=inf_bad. Without the cap an overfull
+        // line (badness inf_bad+1) would be feasible under a tolerance above 10000.
+        let tolerance = tolerance.min(INFINITE_BADNESS);
         let mut auto_breaking = true;
         let mut passive_nodes = vec![PassiveNode {
             elem: 0,
